@@ -115,25 +115,34 @@ def pool_labels(pool):
     return [0, 1, 2] if pool < 0 else list(common.LABEL_POOLS[pool])[:3]
 
 
-def pair_record(rid, kl, kr, spin, pa, pb, pool):
-    """a (+|-|*) b on the real classes; everything observed, nothing judged"""
+def pair_record(rid, kl, kr, spin, pa, pb, pool, scale_exp=0):
+    """a (+|-|*) b on the real classes; everything observed, nothing judged.
+    scale_exp: both operands are scaled by 2^scale_exp (real coefficients far from 1; exact in binary floating point); the
+    record holds the unscaled numerators (sums: divided by the scale, products: by its square, powers: by its k-th power)"""
     import operator
+    from fractions import Fraction
     from . import pure
     labels = pool_labels(pool)
+    sc = Fraction(2) ** scale_exp
     names = {(type(l).__name__, l): "L%d" % i for i, l in enumerate(labels)}
 
-    def raw(d):
-        return [[[names[(type(x).__name__, x)] for x in k], common.to_int(common.frac(v), 1)] for k, v in dict.items(d)]
+    def raw(d, power=1):
+        return [[[names[(type(x).__name__, x)] for x in k], common.to_int(common.frac(v) / sc ** power, 1)] for k, v in dict.items(d)]
     ta, tb = pure.instantiate(pa, labels), pure.instantiate(pb, labels)
+    if scale_exp:
+        ta = {k: v * float(sc) for k, v in ta.items()}
+        tb = {k: v * float(sc) for k, v in tb.items()}
     a, b = _cls(kl)(ta), _cls(kr)(tb)
     a0, b0 = list(dict.items(a)), list(dict.items(b))
-    rec = {"id": rid, "kl": kl, "kr": kr, "spin": spin, "a": raw(a), "b": raw(b), "ops": [], "pool": pool,
+    def intended(p):       # what the operand was MEANT to be (the constructor is part of what is judged)
+        return [[[names[(type(x).__name__, x)] for x in k], int(v)] for k, v in pure.instantiate(p, labels).items()]
+    rec = {"id": rid, "kl": kl, "kr": kr, "spin": spin, "a": intended(pa), "b": intended(pb), "ops": [], "pool": pool, "scale_exp": scale_exp,
            "pa": [[list(k), v] for k, v in pa.items()], "pb": [[list(k), v] for k, v in pb.items()]}
     for opname, f in (("add", operator.add), ("sub", operator.sub), ("mul", operator.mul)):
         e = {"op": opname, "raised": "", "res": [], "rkind": "", "a_same": True, "b_same": True, "comm": "na"}
         try:
             r = f(a, b)
-            e["res"], e["rkind"] = raw(r), type(r).__name__
+            e["res"], e["rkind"] = raw(r, 2 if opname == "mul" else 1), type(r).__name__
             if opname != "sub":
                 try:
                     r2 = f(b, a)
@@ -158,7 +167,7 @@ def pair_record(rid, kl, kr, spin, pa, pb, pool):
                 a2 *= b
             else:
                 a2.update(b)
-            e["res"], e["rkind"] = raw(a2), type(a2).__name__
+            e["res"], e["rkind"] = raw(a2, 2 if opname == "imul" else 1), type(a2).__name__
             e["vars"] = [names.get((type(x).__name__, x), "?") for x in a2.variables]
             dg = a2.degree
             e["deg"], e["nvars"] = (int(dg) if dg == dg and abs(dg) < 10 ** 6 else -1), int(a2.num_binary_variables)
@@ -166,6 +175,17 @@ def pair_record(rid, kl, kr, spin, pa, pb, pool):
             e["raised"] = type(ex).__name__
         e["b_same"] = list(dict.items(b)) == b0 and type(b).__name__ == kr
         rec["ops"].append(e)
+    # powers and negation of a, once per left operand (when the right operand is the empty polynomial)
+    if not pb:
+        for opname, k in (("pow2", 2), ("pow3", 3), ("pow4", 4), ("pow5", 5), ("neg", 1)):
+            e = {"op": opname, "raised": "", "res": [], "rkind": "", "a_same": True, "b_same": True, "comm": "na"}
+            try:
+                r = -a if opname == "neg" else a ** k
+                e["res"], e["rkind"] = raw(r, k), type(r).__name__
+            except Exception as ex:      # noqa
+                e["raised"] = type(ex).__name__
+            e["a_same"] = list(dict.items(a)) == a0 and type(a).__name__ == kl
+            rec["ops"].append(e)
     return rec
 
 
@@ -182,6 +202,14 @@ def _pair_chunk(arg):
                 if kr in QUAD and any(len(k) > 2 for k in pb):
                     continue
                 recs.append(pair_record(len(recs) + 1, kl, kr, spin, pa, pb, pool))
+        # the same with coefficients of the order 1e-13 (sums ~1e-13, products ~1e-26), for a part of the left operands
+        for pa in lefts[1:9]:
+            if kl in QUAD and any(len(k) > 2 for k in pa):
+                continue
+            for pb in rights[::3]:
+                if kr in QUAD and any(len(k) > 2 for k in pb):
+                    continue
+                recs.append(pair_record(len(recs) + 1, kl, kr, spin, pa, pb, pool, scale_exp=-43))
     rf = os.path.join(wd, "pairs_%d.ndjson" % idx)
     common.write_ndjson(rf, recs)
     r = run_tlc("CheckBin", "CheckBin.cfg", env={"QV_RECS": rf}, cont=True, timeout=3000, workers=2, heap="2g", name="checkbin_%d" % idx)
@@ -224,11 +252,56 @@ def pairs_tier(out, wd, rng, thorough):
             out.violation("spec:CheckBin", "CheckBin did not complete", res["tail"], None)
 
 
+def value_tier(out, wd, thorough):
+    """the four evaluation functions on raw dictionaries (repeated labels inside a key, one monomial under several keys) x every
+    assignment x dict / list / tuple; judged by spec/CheckValue.tla"""
+    import itertools
+    from qubovert import utils
+    keys = [(), (0,), (1,), (0, 1), (1, 0), (0, 0), (1, 1, 1), (0, 0, 1), (0, 1, 0), (1, 0, 0, 1), (0, 0, 0), (2, 0, 2)]
+    polys = [{k: c} for k in keys for c in (1, -2)]
+    polys += [{k1: c1, k2: c2} for k1, k2 in itertools.combinations(keys, 2) for c1, c2 in ((1, 1), (1, -1), (2, 3))]
+    if not thorough:
+        polys = polys[::2]
+    recs = []
+    for spin in (False, True):
+        for P in polys:
+            n = 1 + max([x for k in P for x in k] + [-1])
+            quad_ok = all(len(set(k)) <= 2 if not spin else sum(1 for x in set(k) if k.count(x) % 2) <= 2 for k in P) and all(len(k) <= 2 for k in P)
+            fns = ["puso_value"] if spin else ["pubo_value"]
+            if quad_ok:
+                fns.append("quso_value" if spin else "qubo_value")
+            for bits in itertools.product([0, 1], repeat=n):
+                asg = [(-1 if b else 1) if spin else b for b in bits]
+                for fn in fns:
+                    rec = {"fn": fn, "spin": spin, "terms": [[list(k), v] for k, v in P.items()], "ones": [i for i, b in enumerate(bits) if b],
+                           "values": [], "raised": ""}
+                    try:
+                        f = getattr(utils, fn)
+                        vals = [f(dict(enumerate(asg)), dict(P)), f(list(asg), dict(P)), f(tuple(asg), dict(P))]
+                        rec["values"] = [modelobj.as_int(v) for v in vals]
+                    except Exception as e:      # noqa
+                        rec["raised"] = type(e).__name__
+                    recs.append(rec)
+    rf = os.path.join(wd, "values.ndjson")
+    common.write_ndjson(rf, recs)
+    r = run_tlc("CheckValue", "CheckValue.cfg", env={"QV_RECS": rf}, cont=True, timeout=900, workers=4, name="checkvalue")
+    out.add("value_function_calls", 3 * len(recs))
+    out.add("states", r.distinct)
+    seen = set()
+    for v in r.viol_lines:
+        rec = recs[int(v[2]) - 1]
+        if rec["fn"] in seen:
+            continue
+        seen.add(rec["fn"])
+        out.violation("ValueIsEvaluation", "ValueIsEvaluation %s" % rec["fn"], rec, None)
+
+
 def replay_pair(out, rc):
     wd = common.workdir("c05p")
     try:
         os.environ.pop(common.GUARD, None)
-        rec = pair_record(1, rc["kl"], rc["kr"], rc["spin"], {tuple(k): v for k, v in rc["pa"]}, {tuple(k): v for k, v in rc["pb"]}, rc["pool"])
+        rec = pair_record(1, rc["kl"], rc["kr"], rc["spin"], {tuple(k): v for k, v in rc["pa"]}, {tuple(k): v for k, v in rc["pb"]}, rc["pool"],
+                          rc.get("scale_exp", 0))
         rf = os.path.join(wd, "pairs.ndjson")
         common.write_ndjson(rf, [rec])
         r = run_tlc("CheckBin", "CheckBin.cfg", env={"QV_RECS": rf}, cont=True, timeout=600, workers=2, name="checkbin_replay")
@@ -246,6 +319,7 @@ def run(tier, out, replay=None):
         wd = common.workdir("c05p")
         try:
             pairs_tier(out, wd, common.rng_for(out.seed, "c05p"), tier == "thorough")
+            value_tier(out, wd, tier == "thorough")
         finally:
             common.cleanup(wd)
     generic_run(tier, out, "c05", FAMILIES, OPS, TRACE_INVS, ["StoredCanonical", "UpperBounds"], sim_n=(120, 1500), sim_depth=10,
